@@ -44,12 +44,12 @@ type AssertionView struct {
 	HasAttrStmt bool
 	Attrs       []AttrView
 
-	HasAuthn                                    bool
-	SessionIndex                                string
-	HasAuthnInstant, HasSessionNOOA             bool
-	AuthnInstant, SessionNOOA                   int64
-	HasAuthnContext, HasClassRef                bool
-	ClassRef                                    string
+	HasAuthn                        bool
+	SessionIndex                    string
+	HasAuthnInstant, HasSessionNOOA bool
+	AuthnInstant, SessionNOOA       int64
+	HasAuthnContext, HasClassRef    bool
+	ClassRef                        string
 }
 
 type ResponseView struct {
